@@ -11,13 +11,10 @@
 From Ucanto Require Import Base Varint Ipld Cbor Formats Blockstore MessageFormat Cid Car BaseEnc DagJson Signing.
 From Ucanto Require Import MessageBytes TokenBytes.
 From Ucanto Require Import Pattern Time Validator ValidatorSpec ValidatorTerm Server ServerTotal EndToEnd TokenView.
+From Ucanto Require Export LinkId.
+From Ucanto Require Import LinkIntegrity.
 From Coq Require Import ZifyBool ZifyN ZifyNat.
 Open Scope N_scope.
-
-Definition lid : bstr -> link := bstr_code.
-
-Lemma lid_inj a b : lid a = lid b -> a = b.
-Proof. apply bstr_code_inj. Qed.
 
 (* the block table as a function of link numbers: the first block whose CID has that number *)
 Definition B_of (blocks : list (bstr * bstr)) (l : link) : option bstr :=
